@@ -178,7 +178,7 @@ pub fn wider_texts() -> Vec<(&'static str, String)> {
     // every lexeme spelling where the grammar takes it (also spellings the lexer accepts
     // beyond the official grammar, e.g. hardware qubits with digit separators)
     for (t, _) in crate::props::c15::lexeme_context_texts() {
-        v.push(("lexeme_in_context", t));
+        v.push(("lexeme_in_context", t.replace('¤', " ")));
     }
     v
 }
